@@ -53,6 +53,44 @@ def asTarget : Val → Val
   | .fwrap _ _ inner => asTarget inner
   | _ => .nilIface
 
+/-! ### `errors.As` with a target of ANY error type -/
+
+/-- outcome of `errors.As(err, &target)` -/
+inductive AsOut where
+  | found (v : Val)   -- the value stored in `target`
+  | none
+  | panics            -- `(*errs.Error)(nil).Unwrap()` dereferences the nil receiver
+deriving DecidableEq, Repr, Inhabited
+
+/-- the loop of `errors.As(err, target)` (package errors, `as`) for a target of dynamic type `k`: the first value of the
+    `Unwrap` chain whose type is `k` — through `*errs.Error` cells (their cause; of an aggregate: the cause of its first error),
+    through foreign wrappers.  `ty` gives the dynamic type of a value as a tag (the driver knows the Go type of every foreign
+    error it made; `*errs.Error` is one tag for cells and the nil pointer).  None of the types has an `As` method. -/
+def asWalk (h : Heap) (ty : Val → Nat) (k : Nat) : Nat → Val → AsOut
+  | 0, _ => .none
+  | fuel+1, v =>
+    if v == .nilIface then .none
+    else if ty v == k then .found v
+    else match v with
+      | .typedNil => .panics
+      | .ref id => asWalk h ty k fuel (unwrap h (.ref id))
+      | .fwrap _ _ inner => asWalk h ty k fuel inner
+      | _ => .none
+
+/-- `errors.As(v, &target)` with `target` of type `k` -/
+def errorsAs (h : Heap) (ty : Val → Nat) (k : Nat) (v : Val) : AsOut := asWalk h ty k (walkFuel h v) v
+
+/-- does the `Unwrap` chain of `v` end in a typed nil of a foreign type?  (The model has one notion for those, without a
+    type: the driver and the harness both leave such walks out of the `asf` comparison.) -/
+def endsForeignNil (h : Heap) : Nat → Val → Bool
+  | 0, _ => false
+  | fuel+1, v =>
+    match v with
+    | .foreignNil => true
+    | .ref id => endsForeignNil h fuel (unwrap h (.ref id))
+    | .fwrap _ _ inner => endsForeignNil h fuel inner
+    | _ => false
+
 /-! ### errs/recovery.go -/
 
 /-- what `recover()` returned inside `Recovery` -/
